@@ -142,6 +142,7 @@ type runState struct {
 	nextWID   int
 	pathLimit time.Duration
 	maxWit    int
+	cross     map[*worker][2]int // per worker process: assertion queries re-discharged by cvc5/z3-new, agreed
 }
 
 func (rs *runState) explore(e *Entry, params map[string]int, maxPaths int) *entryStats {
@@ -226,6 +227,14 @@ func (rs *runState) explore(e *Entry, params map[string]int, maxPaths int) *entr
 		st.QUnknown += pr.QUnknown
 		st.SolverS += pr.SolverMs / 1000
 		st.FrozenHits += len(pr.FrozenHits)
+		if pr.CrossChecked > 0 {
+			rs.mu.Lock()
+			if rs.cross == nil {
+				rs.cross = map[*worker][2]int{}
+			}
+			rs.cross[r.w] = [2]int{pr.CrossChecked, pr.CrossAgreed}
+			rs.mu.Unlock()
+		}
 		for _, f := range pr.NewFuncs {
 			rs.funcs[f] = true
 		}
@@ -446,7 +455,7 @@ func checkMain(id, tier string) int {
 		patterns = append(patterns, p)
 	}
 	sort.Strings(patterns)
-	wi := WorkerInit{Overlay: ov.Files, Patterns: patterns, TimeoutMs: timeout, MaxInstrs: cfg.MaxInstrs, OpenKnown: open, Solver: os.Getenv("GOSYM_SOLVER"), WorkDir: work, StandaloneS: map[string]int{"quick": 30, "thorough": 300}[tier]}
+	wi := WorkerInit{Overlay: ov.Files, Patterns: patterns, TimeoutMs: timeout, MaxInstrs: cfg.MaxInstrs, OpenKnown: open, Solver: os.Getenv("GOSYM_SOLVER"), WorkDir: work, StandaloneS: map[string]int{"quick": 30, "thorough": 300}[tier], CrossEvery: map[string]int{"quick": 200, "thorough": 40}[tier]}
 	initFile := filepath.Join(work, "worker_init.json")
 	wb, _ := json.Marshal(wi)
 	os.WriteFile(initFile, wb, 0o644)
